@@ -40,12 +40,12 @@ def run(ctx):
     except RuntimeError as e:
         raise F.C_BuildError(str(e))
     rng = ctx.rng
-    ndf = 900 if ctx.thorough() else 160
+    ndf = 1500 if ctx.thorough() else 330
     dfs = []
     for i in range(ndf):
         enc = ENCS[i % len(ENCS)]
         df = gen.Dirfile(rng, regime='exact', enc=enc, depth=4, max_fields=7,
-                         allow=('lincom', 'linterp', 'bit', 'multiply', 'divide', 'recip', 'phase', 'phase',
+                         allow=('lincom', 'lincom', 'lincom', 'linterp', 'bit', 'multiply', 'divide', 'recip', 'phase', 'phase',
                                 'phase', 'polynom', 'window'))
         dfs.append(df)
     p1 = [phase1(df, rng) for df in dfs]
